@@ -212,6 +212,8 @@ def _shard_entry(args):
         scratch = tempfile.mkdtemp(prefix='vf_%s_%d_' % (modname.split('.')[-1], shard))
         try:
             res = getattr(mod, fn)(shard=shard, nshards=nshards, tier=tier, seed=seed * 1000 + shard, scratch=scratch)
+            if isinstance(res, dict):
+                res['stage'] = fn
         finally:
             shutil.rmtree(scratch, ignore_errors=True)
         return ('ok', res)
